@@ -111,6 +111,11 @@ def run(seed=0):
                 check('isnan', M.isnan(A), real_np.isnan(ra))
                 check('isfinite', M.isfinite(A), real_np.isfinite(ra))
                 check('insert', M.insert(A, 0, s), real_np.insert(ra, 0, s))
+                check('roll', M.roll(A, 1), real_np.roll(ra, 1))
+                check('roll', M.roll(A, -2), real_np.roll(ra, -2))
+                check('flip', M.flip(A), real_np.flip(ra))
+                if len(ra) > 1:
+                    check('diff', M.diff(A), real_np.diff(ra))
                 check('tile', M.tile(A, 2), real_np.tile(ra, 2))
                 check('repeat', M.repeat(A, 2), real_np.repeat(ra, 2))
                 check('append', M.append(A, B), real_np.append(ra, rb))
